@@ -28,7 +28,6 @@ import asyncstdlib.itertools
 from typing_extensions import Self  # In 3.11, import this from `typing`
 
 from mpservice import multiprocessing
-from mpservice._common import StopRequested
 from mpservice._queues import SingleLane
 from mpservice.concurrent.futures import (
     ProcessPoolExecutor,
@@ -178,7 +177,8 @@ class SyncIter(Iterable):
                         return
                     q.put(x)
                 q.put(FINISHED)
-            except (Exception, StopRequested) as e:
+            except BaseException as e:
+                # Not only `Exception`: whatever ends this thread must reach the consumer.
                 q.put(STOPPED)
                 q.put(e)
 
@@ -446,7 +446,8 @@ class AsyncBuffer(AsyncIterable):
                         break
                     q.put(x)  # if `q` is full, will wait here
                 q.put(FINISHED)
-            except (Exception, StopRequested) as e:
+            except BaseException as e:
+                # Not only `Exception`: whatever ends this thread must reach the consumer.
                 q.put(STOPPED)
                 q.put(e)
                 # raise
